@@ -71,7 +71,10 @@ def run_case(tid, terms, strikes, cv_strikes, notional, df, spot_stats, cv_price
     ys = [[max(s - k, 0) for s in terms] for k in strikes]
     def cvpay(s, k):      # k >= 0: call struck at k ; k < 0: put struck at -k
         return max(s - k, 0) if k >= 0 else max(-k - s, 0)
-    xs = [[[cvpay(s, k) for s in terms]] * dim for k in cv_strikes]          # xs[control][component][path]
+    # a control given as a list of strikes is a vector-strike product: one control payoff per payoff component
+    def comp_strike(k, c):
+        return k[c] if isinstance(k, (list, tuple)) else k
+    xs = [[[cvpay(s, comp_strike(k, c)) for s in terms] for c in range(dim)] for k in cv_strikes]   # xs[control][component][path]
     hdr = {"kind": f"dim{dim}:cv{len(cv_strikes)}", "n": n, "dim": dim, "ys": ys, "xs": xs, "ncv": len(cv_strikes)}
     scale = notional * df
     ev = []
@@ -80,10 +83,15 @@ def run_case(tid, terms, strikes, cv_strikes, notional, df, spot_stats, cv_price
         product = Product(Spot(), payoff, maturity=1.0, notional=float(notional))
         cv = None
         if cv_strikes:
-            prods = [Product(Spot(), Vanilla(strike=float(abs(k)), payoff_type=PayoffType.CALL if k >= 0 else PayoffType.PUT),
-                             maturity=1.0, notional=float(notional)) for k in cv_strikes]
+            def mk(k):
+                if isinstance(k, (list, tuple)):
+                    return Product(Spot(), Vanilla(strike=[float(x) for x in k], payoff_type=PayoffType.CALL), maturity=1.0, notional=float(notional))
+                return Product(Spot(), Vanilla(strike=float(abs(k)), payoff_type=PayoffType.CALL if k >= 0 else PayoffType.PUT),
+                               maturity=1.0, notional=float(notional))
+            prods = [mk(k) for k in cv_strikes]
             # price of a control = its discounted sample mean (then the adjusted mean must equal the raw mean)
-            prices = [float(np.mean([cvpay(s, k) for s in terms]) * scale) for k in cv_strikes]
+            prices = [(np.array([np.mean(xs[j][c]) * scale for c in range(dim)]) if isinstance(k, (list, tuple))
+                       else float(np.mean(xs[j][0]) * scale)) for j, k in enumerate(cv_strikes)]
             cv = ControlVariates(prods, prices)
         conf = ConfigurationStandard(mc_paths=n, seed=3, control_variates=cv, activate_spot_statistics=spot_stats, nb_of_processes=1)
         proc = ScriptedProcess(terms, df)
@@ -162,7 +170,7 @@ def main():
         sets.append([rng.randint(0, 9) for _ in range(rng.randint(5, 12))])
     for terms in sets:
         for (strikes, cvk) in (([0], []), ([1], [2]), ([0, 2], []), ([0, 2], [1]), ([1], [0, 3]), ([0, 1], [2, 4]), ([1], [2, -4]),
-                               ([0, 3], [-3, 1])):
+                               ([0, 3], [-3, 1]), ([0, 2], [[1, 3]]), ([0, 1], [[2, 4], [3, 1]])):
             if len(terms) < 2 and cvk:
                 continue
             notional, df = rng.choice([1, 2, 4]), rng.choice([1.0, 0.5, 0.25])
